@@ -22,6 +22,18 @@ type corruption struct {
 	apply func(m *Model, r *core.RNG) bool
 }
 
+// nilPointerKinds are the corruptions that plant a nil pointer (or nil
+// interface) where the library dereferences without looking. They are only
+// generated as the single corruption of a case: combined with a second fault,
+// whether the library meets the nil pointer (panic) or the other fault
+// (error, or a different panic site) first depends on Go map iteration inside
+// the library, and the recorded outcome of the case would no longer be a
+// function of the seed.
+func nilPointerKind(kind string) bool {
+	return strings.HasPrefix(kind, "typednil:") || kind == "nil:extra-type" || kind == "nil:directive" ||
+		kind == "nil:directive-arg-config" || kind == "forward-literal"
+}
+
 var badNames = []string{"", "bad-name", "1x", "a b", "é", "x!"}
 
 func badName(r *core.RNG) string { return core.PickStr(r, badNames) }
@@ -861,9 +873,12 @@ func init() {
 // thunk flags and the hand-over lists so that the corrupted part stays
 // reachable and no second, accidental corruption (an unintended forward
 // reference in a literal) is introduced.
-func corrupt(m *Model, r *core.RNG) (kind string, ok bool) {
-	for try := 0; try < 12; try++ {
+func corrupt(m *Model, r *core.RNG, allowNilPointer bool) (kind string, ok bool) {
+	for try := 0; try < 20; try++ {
 		c := catalogue[r.Intn(len(catalogue))]
+		if !allowNilPointer && nilPointerKind(c.kind) {
+			continue
+		}
 		if c.apply(m, r) {
 			m.Corruptions = append(m.Corruptions, c.kind)
 			forceThunks(m)
